@@ -716,7 +716,9 @@ def contexts(tier):
         for f_i, p1 in enumerate(firsts):
             kvs = []
             cands = ([len(b) for b in p1], [1] * len(p1), [(len(b) + 1) // 2 for b in p1])
-            if tier == 'quick':
+            if tier == 'quick' and f_i == 2:
+                continue  # three first strata together with a MEV sample: thorough tier only
+            if tier == 'quick' or J > 4:
                 cands = (cands[0], cands[1]) if f_i == 1 else (cands[0],)
             for kv in cands:
                 if kv not in kvs:
@@ -768,6 +770,11 @@ def tasks(tier, seed):
                 k = [1] * len(part)
                 k[s] = kbad
                 vcases.append(dict(J=J, part1=part, k1=k))
+    # observations only (outside the statement's domain, counted, never a violation): a 'partition' that does not cover
+    # the table of alternatives, and fewer sizes than strata
+    ids = IDS[:J]
+    vcases.append(dict(J=J, part1=[ids[:2]], k1=[2], observe='partition-not-covering-the-alternatives'))
+    vcases.append(dict(J=J, part1=[ids[:2], ids[2:]], k1=[2], observe='fewer-sizes-than-strata'))
     out.append(dict(part='V', cases=vcases))
     # simplest first, but the heavy ones must not all sit at the end: keep order (contexts are simplest first)
     return out
@@ -835,13 +842,17 @@ def _validation_case(case, rec):
     utility, cvs = build_spec('S0')
     outcome = 'accepted'
     try:
-        SamplingContext(the_partition=Partition([set(b) for b in case['part1']], full_set=set(IDS[:J])),
+        SamplingContext(the_partition=Partition([set(b) for b in case['part1']], full_set=set(a for b in case['part1'] for a in b)),
                         sample_sizes=list(case['k1']), individuals=ind_df, choice_column='choice', alternatives=alts_df,
                         id_column=R.ID, biogeme_file_name=FILE_NAME, utility_function=utility, combined_variables=cvs)
     except BiogemeError:
         outcome = 'BiogemeError'
     except Exception as e:
         outcome = type(e).__name__
+    if case.get('observe'):
+        rec.case(None, (case['observe'], outcome), outcome=('V-observation', case['observe'], outcome))
+        rec.count(f'observed_{case["observe"]}_{outcome}')
+        return
     kind = 'zero' if 0 in case['k1'] else 'larger-than-stratum'
     rec.case(('V', repr(case['part1']), tuple(case['k1'])), (case['part1'], case['k1'], outcome), outcome=('V', kind, outcome))
     if outcome != 'BiogemeError':
